@@ -110,6 +110,12 @@ type World struct {
 	// (gate-level scenarios use it to record the gate sequence).
 	GateHook func(t *Task, g GateInfo)
 
+	// PostGates adds a gate behind every state read and write (C14)
+	PostGates bool
+	// NameOf, when set before the cluster is built, chooses the participants'
+	// user names (a participant picks its own name: look-alike names are input)
+	NameOf func(i int) string
+
 	viol        *sim.Violation
 	Prop        string         // property of the scenario being run
 	known       *sim.Violation // first recorded (known) finding hit in this run
@@ -338,6 +344,9 @@ func (w *World) Grant(t *Task) {
 			w.Stats.Fault("crash-cold")
 			if w.OnAirCrash != nil {
 				w.OnAirCrash(t, *g)
+			}
+			if t.Air < len(w.Airs) && w.Airs[t.Air] != nil {
+				w.Airs[t.Air].Dead = true // nothing may be fed to it before it was restarted
 			}
 			w.Gates++
 			t.grant <- cmdCrash
